@@ -329,6 +329,19 @@ def _run_pool(sh, ctx, gc, KmerSpec):
 			ks = KmerSpec(spec[0], spec[1])
 			ctx.seen('kmerspecs_used_in_one_process', f'{spec[0]}/{spec[1].decode()}')
 			files, exps = make_files(ctx, rng, n, skew=skew, tag=f'r{r}_', spec=spec)
+			# files without any sequence record (zero bytes, an empty gzip member, a lone header): legal input whose signature is empty
+			nempty = 0
+			if r % 4 == 2 or rng.random() < 0.15:
+				from gambit.seq import SequenceFile as _SF
+				for e_ in range(rng.randint(1, 2)):
+					kind_ = rng.choice(['zero-bytes', 'empty-gzip', 'header-only'])
+					pe = ctx.workdir / f'r{r}_empty{e_}.fa{".gz" if kind_ == "empty-gzip" else ""}'
+					pe.write_bytes({'zero-bytes': b'', 'empty-gzip': gzip.compress(b''), 'header-only': b'>no sequence here\n'}[kind_])
+					at = rng.randint(0, len(files))
+					files.insert(at, _SF(pe, 'fasta', 'auto')); exps.insert(at, [])
+					nempty += 1
+				n = len(files)
+				ctx.count('runs_with_recordless_files')
 			uniq = list(files)
 			dups = 0
 			if r % 3 == 1 or (n >= 2 and rng.random() < 0.2):
@@ -356,7 +369,7 @@ def _run_pool(sh, ctx, gc, KmerSpec):
 					_DELAYS[str(f.path)] = rng.random() * 0.02
 			workers = rng.choice([1, 2, 3, 4, 8, 16, None])
 			own = rng.random() < 0.3 and mode is not None
-			w = dict(n=n, mode=sh['mode'], max_workers=workers, skew=skew, delays=style, caller_executor=own, kmerspec=f'{spec[0]}/{spec[1].decode()}', repeated_files=dups)
+			w = dict(n=n, mode=sh['mode'], max_workers=workers, skew=skew, delays=style, caller_executor=own, kmerspec=f'{spec[0]}/{spec[1].decode()}', repeated_files=dups, recordless_files=nempty)
 			rec.orders.clear()
 			ex = None
 			try:
@@ -562,7 +575,7 @@ def run_shard(sh, ctx):
 def finalize(merged, tier, seed, inconclusive):
 	c = merged['counters']
 	for n in ['forced_runs', 'orders_delivered_exactly_as_chosen', 'non_identity_orders_delivered', 'pool_runs:none', 'pool_runs:threads', 'pool_runs:processes',
-	          'failures_propagated', 'caller_executor_still_usable', 'failure_runs:processes', 'failure_runs:perm', 'yield_injections', 'successful_calls_after_a_failed_call', 'runs_with_repeated_files']:
+	          'failures_propagated', 'caller_executor_still_usable', 'failure_runs:processes', 'failure_runs:perm', 'yield_injections', 'successful_calls_after_a_failed_call', 'runs_with_repeated_files', 'runs_with_recordless_files']:
 		if c.get(n, 0) == 0:
 			inconclusive.append(f'class never observed: {n}')
 	if c.get('pool_orders_observed', 0) and c.get('pool_orders_not_identity', 0) == 0:
